@@ -701,6 +701,31 @@ def image_from(ctx, rec, loc, geom, crpix, x, y, lines, pending, tag):
     return {'obj': im, 'ra': ra, 'dec': dec, 'case': case, 'n': n}
 
 
+def close_double_image_cases(ctx, rec, count, lines, pending):
+    """image catalogs whose extreme sources have a companion less than a pixel away (close doubles at the hull
+    vertices; seeded change C16-r5m1: a min_separation of the order of a pixel merges such vertices away and leaves
+    a source outside its own catalog footprint)"""
+    rng = ctx.rng
+    for k in range(count):
+        npr = np.random.default_rng(rng.getrandbits(32))
+        loc = rng.choice(LOCATIONS)
+        geom = {'rot': rng.uniform(0, 360), 'scale': rng.choice([1e-5, 3e-5, 2e-6]), 'flip': rng.random() < 0.3}
+        n = rng.choice([3, 4, 6, 12])
+        x = npr.uniform(50, 970, n)
+        y = npr.uniform(50, 970, n)
+        ext = sorted({int(np.argmax(x)), int(np.argmin(x)), int(np.argmax(y)), int(np.argmin(y)),
+                      int(np.argmax(x + y)), int(np.argmin(x + y))})
+        rng.shuffle(ext)
+        ext = ext[:rng.choice([1, 2, 4])]
+        r = rng.choice([0.95, 0.6, 0.2, 0.01])
+        dx = npr.uniform(-r, r, len(ext))
+        dy = npr.uniform(-r, r, len(ext))
+        x = np.concatenate([x, x[ext] + dx])
+        y = np.concatenate([y, y[ext] + dy])
+        ctx.branch('image:close-double')
+        image_from(ctx, rec, loc, geom, (512.0, 512.0), x, y, lines, pending, 'D%d' % k)
+
+
 def thin_image_cases(ctx, count):
     """image catalogs whose sources lie within a fraction of a pixel of a straight line (finding F27, repaired in
     /repo: the hull of such a catalog is a sliver that spherical_geometry cannot orient; the image catalog then
@@ -1253,6 +1278,7 @@ def run(ctx):
     with Recorder() as rec:
         probes(ctx, rec, lines, pending)
         thin_image_cases(ctx, ctx.n(40, 600))
+        close_double_image_cases(ctx, rec, ctx.n(40, 600), lines, pending)
         locs = list(LOCATIONS)
         for _ in range(ctx.n(0, 24)):
             locs.append((ctx.rng.choice([0.0, 359.99, 45.0, 135.0, 180.0, 225.0, 315.0, ctx.rng.uniform(0, 360)]),
